@@ -201,7 +201,9 @@ pub mod keymodels {
     pub broadcast axiom fn axiom_key_model_denom() ensures #[trigger] obeys_key_model::<Denom>();
     pub broadcast axiom fn axiom_key_model_address() ensures #[trigger] obeys_key_model::<Address>();
     pub broadcast axiom fn axiom_key_model_txhash() ensures #[trigger] obeys_key_model::<TxHash>();
-    pub broadcast group group_key_models { axiom_key_model_coinid, axiom_key_model_denom, axiom_key_model_address, axiom_key_model_txhash }
+    /// a reference hashes and compares like its referent (std's blanket impls of Hash / Eq for &T)
+    pub broadcast axiom fn axiom_key_model_coinid_ref<'a>() ensures #[trigger] obeys_key_model::<&'a CoinID>();
+    pub broadcast group group_key_models { axiom_key_model_coinid, axiom_key_model_denom, axiom_key_model_address, axiom_key_model_txhash, axiom_key_model_coinid_ref }
 }
 pub broadcast group group_core_axioms { axiom_bytes_ext, axiom_bytes_of, axiom_weight_bound, axiom_header_hash_inj }
 
